@@ -2,22 +2,22 @@ package main
 
 func init() {
 	reg(&Spec{
-		ID: "C29", Pkgs: []string{"util", "transactions"}, EngineOnly: []string{"VH_C29_concurrent_next", "VH_C29_concurrent_store"},
+		ID: "C29", Pkgs: []string{"util", "transactions"}, EngineOnly: []string{"VH_C29_concurrent_next", "VH_C29_concurrent_wrap", "VH_C29_concurrent_store"},
 		Quick: func() []Inst {
 			return []Inst{inst("util", "VH_C29_next"), inst("util", "VH_C29_new"), inst("util", "VH_C29_state"),
 				inst("transactions", "VH_C29_store", 3), inst("transactions", "VH_C29_store", 4),
-				inst("util", "VH_C29_concurrent_next", 2), inst("transactions", "VH_C29_concurrent_store", 2)}
+				inst("util", "VH_C29_concurrent_next", 2), inst("util", "VH_C29_concurrent_wrap", 2), inst("transactions", "VH_C29_concurrent_store", 2)}
 		},
 		Thor: func() []Inst {
 			return []Inst{inst("util", "VH_C29_next"), inst("util", "VH_C29_new"), inst("util", "VH_C29_state"),
 				inst("transactions", "VH_C29_store", 4), Inst{Pkg: "transactions", Fn: "VH_C29_store", Args: []int64{5}, MaxPaths: 400000},
-				Inst{Pkg: "util", Fn: "VH_C29_concurrent_next", Args: []int64{3}, MaxPaths: 100000}, Inst{Pkg: "transactions", Fn: "VH_C29_concurrent_store", Args: []int64{3}, MaxPaths: 100000}}
+				Inst{Pkg: "util", Fn: "VH_C29_concurrent_next", Args: []int64{3}, MaxPaths: 100000}, Inst{Pkg: "util", Fn: "VH_C29_concurrent_wrap", Args: []int64{3}, MaxPaths: 100000}, Inst{Pkg: "transactions", Fn: "VH_C29_concurrent_store", Args: []int64{3}, MaxPaths: 100000}}
 		},
 		Asserts: []string{"C29.next_returns_state", "C29.next_wraps", "C29.next_increments", "C29.next_stays_in_range", "C29.overflow_exactly_after_wrap",
 			"C29.consecutive_distinct", "C29.new_starts_at_min", "C29.first_is_min", "C29.state_swap", "C29.store_get_found", "C29.store_get_value",
 			"C29.store_getbytype_found", "C29.store_getbytype_value",
-			"C29.concurrent_ids_consecutive", "C29.concurrent_ids_distinct", "C29.concurrent_ids_ordered_per_goroutine", "C29.concurrent_race_free", "C29.concurrent_own_key_visible", "C29.concurrent_final_content"},
-		Reach: []string{"C29.wrap", "C29.step", "C29.concurrent_done", "C29.concurrent_store_done"},
+			"C29.concurrent_ids_consecutive", "C29.concurrent_ids_distinct", "C29.concurrent_ids_ordered_per_goroutine", "C29.concurrent_race_free", "C29.concurrent_wrap_in_range", "C29.concurrent_wrap_overflow_with_min_only", "C29.concurrent_wrap_ids_cyclic", "C29.concurrent_wrap_race_free", "C29.concurrent_own_key_visible", "C29.concurrent_final_content"},
+		Reach: []string{"C29.wrap", "C29.step", "C29.concurrent_done", "C29.concurrent_wrap_done", "C29.concurrent_store_done"},
 		Bounds: map[string]string{
 			"ID sequence": "one Next() (and a second, chained) from an arbitrary state: min <= next <= max and the overflow flag all symbolic over the full 16-bit range (induction: covers every range and every number of calls)",
 			"store":       "sequences of 3..4 (thorough 4..5) operations Store/Delete/Get/StoreByType/DeleteByType/GetByType with symbolic kinds and symbolic keys against a reference association list",
